@@ -530,6 +530,21 @@ def _writeback(world, rec, ctx):
     return None
 
 
+@op("hammer", "write")
+def _hammer(world, rec, ctx):
+    """many writes in a row to one vector (a fill loop): v[i % n] = vals[j % len(vals)], k times"""
+    e = world.get(rec["h"], "vec")
+    ctx.writer = e.eid
+    v = e.obj
+    n = len(v)
+    if n == 0:
+        raise SkipOp("empty")
+    vals = V.dec_list(rec["vals"])
+    for j in range(rec["k"]):
+        v[(rec.get("start", 0) + j) % n] = vals[j % len(vals)]
+    return None
+
+
 @op("tset", "write")
 def _tset(world, rec, ctx):
     e = world.get(rec["t"], "tab")
